@@ -22,7 +22,7 @@ var ErrInjected = errors.New("simkit: injected I/O failure")
 // io.WriterTo so that io.Copy really issues read/write pairs.
 type Reader struct {
 	Data        []byte
-	Sizes       []int // read plan; each entry >= 1
+	Sizes       []int // read plan; entry >= 1: at most that many bytes; 0: an empty read (0, nil)
 	EOFWithData bool  // deliver the final bytes together with io.EOF
 	FailAt      int   // if >0: the FailAt-th read (1-based) returns FailErr instead of data
 	FailErr     error
@@ -39,6 +39,8 @@ type Reader struct {
 	MaxRead       int // largest len(p) seen
 	Stuck         bool
 	eofSent       bool
+	lastZero      bool
+	ZeroReads     int
 	ReadsAfterEOF int
 }
 
@@ -79,10 +81,20 @@ func (r *Reader) Read(p []byte) (int, error) {
 	}
 	n := len(p)
 	if len(r.Sizes) > 0 {
-		if k := r.Sizes[(r.Reads-1)%len(r.Sizes)]; k >= 1 && k < n {
+		k := r.Sizes[(r.Reads-1)%len(r.Sizes)]
+		if k == 0 && !r.lastZero {
+			// an empty read: (0, nil) is legal for an io.Reader ("nothing
+			// happened", not EOF); never twice in a row, so that progress is
+			// guaranteed whatever the plan
+			r.lastZero = true
+			r.ZeroReads++
+			return 0, nil
+		}
+		if k >= 1 && k < n {
 			n = k
 		}
 	}
+	r.lastZero = false
 	if n > rem {
 		n = rem
 	}
